@@ -9,8 +9,16 @@ use proptest::prelude::*;
 use serde::{Deserialize, Serialize};
 use yata::core::{Candle, PeriodType, ValueType};
 
-/// (the code imposes no lower limit on magnitudes; 1e-24 keeps squares and products far from the subnormal range)
-pub const MAG_MIN: f64 = 1e-24;
+/// The code imposes no lower limit on magnitudes; the bound keeps squares and products far from the subnormal
+/// range of the crate's value type, where the relative error model of the allowance does not apply
+/// (f64: 1e-24, squares 1e-48; `value_type_f32`: 1e-12, squares 1e-24 against a smallest normal of 1.2e-38).
+pub fn mag_min() -> f64 {
+	if std::mem::size_of::<ValueType>() == 4 {
+		1e-12
+	} else {
+		1e-24
+	}
+}
 pub const MAG_MAX: f64 = 1e9;
 
 /// round to the crate's value type (identity for f64 builds)
@@ -63,11 +71,11 @@ fn unit(n: u16) -> f64 {
 fn clamp_mag(x: f64, dom: Domain) -> f64 {
 	if x == 0.0 {
 		return match dom {
-			Domain::Positive => MAG_MIN,
+			Domain::Positive => mag_min(),
 			_ => 0.0,
 		};
 	}
-	let m = x.abs().clamp(MAG_MIN, MAG_MAX);
+	let m = x.abs().clamp(mag_min(), MAG_MAX);
 	match dom {
 		Domain::Any => m.copysign(x),
 		// volumes: 0 or at least 1e-6 (a dynamic range of volumes beyond 10^18 is not a realistic input and
@@ -97,7 +105,8 @@ fn seg_len(sel: u16, n: usize) -> usize {
 /// length the stream is aimed at (segment lengths are chosen relative to it).
 pub fn build_stream(spec: &StreamSpec, n: usize, max_len: usize, dom: Domain) -> Vec<f64> {
 	let mut out: Vec<f64> = Vec::new();
-	let mut level = (1.0 + unit(spec.base_mant) * 9.0) * 10f64.powi(spec.base_exp as i32);
+	let exp_floor = if std::mem::size_of::<ValueType>() == 4 { -11 } else { i8::MIN };
+	let mut level = (1.0 + unit(spec.base_mant) * 9.0) * 10f64.powi(spec.base_exp.max(exp_floor) as i32);
 	if spec.negative && dom == Domain::Any {
 		level = -level;
 	}
